@@ -469,7 +469,7 @@ fn site_of(what: &str) -> String {
 }
 
 /// scaling oracle: within one family, going to the next size must not raise the cost per byte by more
-/// than a factor 5 (quadratic behaviour raises it by the size ratio, 10), once the time is measurable
+/// than a factor 3 (quadratic behaviour raises it by the size ratio, 10; on the unchanged tree no family exceeds 1.2), once the time is measurable (1 s of CPU time)
 fn scaling_violations(name_len_ms: &[(String, usize, u64)]) -> Vec<(String, String)> {
     let mut by: std::collections::BTreeMap<String, Vec<(usize, u64, String)>> = Default::default();
     for (what, len, ms) in name_len_ms {
@@ -481,12 +481,15 @@ fn scaling_violations(name_len_ms: &[(String, usize, u64)]) -> Vec<(String, Stri
         for w in v.windows(2) {
             let (l1, m1, _) = &w[0];
             let (l2, m2, what2) = &w[1];
-            if *l2 < l1 * 3 || *m2 < 1500 {
+            if *l2 < l1 * 3 {
                 continue;
             }
             let r1 = (*m1).max(3) as f64 / *l1 as f64;
             let r2 = *m2 as f64 / *l2 as f64;
-            if r2 > 5.0 * r1 {
+            if std::env::var("VERIF_C15_TIMINGS").is_ok() && *m2 >= 100 {
+                eprintln!("TIMING {} : {} ms / {} B after {} ms / {} B : growth {:.2}", what2, m2, l2, m1, l1, r2 / r1);
+            }
+            if *m2 >= 1000 && r2 > 3.0 * r1 {
                 out.push((fam.clone(), format!("{}: {} ms for {} bytes, after {} ms for {} bytes: the cost per byte grew {:.1}-fold", what2, m2, l2, m1, l1, r2 / r1)));
             }
         }
@@ -668,7 +671,7 @@ pub fn run(tier: &Tier) -> i32 {
         for (fam, got) in scaling_violations(&t) {
             let site = format!("time / {}", fam);
             if !rep.absorbed_by(&site, "time", &[], None, &got) {
-                rep.report(Viol { site, field: "time".into(), vars: vec![], got_val: None, expected: "time proportional to the input: the cost per byte does not grow more than 5-fold from one size to the next".into(), got, case: json!({"family": fam}), weight: 0 });
+                rep.report(Viol { site, field: "time".into(), vars: vec![], got_val: None, expected: "time proportional to the input: the cost per byte does not grow more than 3-fold from one size to the next".into(), got, case: json!({"family": fam}), weight: 0 });
             }
         }
     }
@@ -832,7 +835,7 @@ pub fn run(tier: &Tier) -> i32 {
     cov.rule = format!("in-process (each case to the real Preprocessor, and if at most 4 KB also as one line to the real DataParser and Interpreter; executed in child processes of the harness, an abnormal end is bisected to the single culprit): ALL strings of length <= {} over a {}-character alphabet (letters, digits, quotes, brackets, parentheses, punctuation, space, newline, NUL, tab, two non-ASCII characters), ALL sequences of <= 3 tokens over {} terminals of the source grammar, the COMPLETE 1-edit neighbourhood (delete, duplicate, substitute by each alphabet character, append) of {} seeds (the repository's examples and 4 mini programs), 2-edit neighbourhoods of the short seeds, and {} pathological inputs (33 families at sizes 10..10^5: line counts, blank lines, digit counts in every radix, string lengths, bracket / parenthesis nesting, nested macro uses, macro chains, labels, procedures, macro definitions, parameters; empty file, no final newline, CR / CRLF, NUL, BOM, non-ASCII, recursive macros, 1 MB of one character). Print reader: every string of length <= 3 and every 'print a b' / 'print mem a b' over the token alphabet typed as a line of a prompt session of the real binary, plus lines with up to 10^5 digits. Source files through the real binary: all byte strings of length <= 1, length 2 over a {}-byte subset, every family input plain and with -i (closed stdin), invalid UTF-8, and deletion + {} substitutions at every position of two seeds. Verdict: exit status 0/1, no signal, no watchdog expiry (unless the replica loop shows that the mutated program itself does not halt), peak memory and time under coarse ceilings", if tier.thorough { 4 } else { 3 }, sp.chars.len(), sp.toks.len(), sp.seeds.len(), sp.fam.len(), if tier.thorough { 256 } else { 70 }, if tier.thorough { 9 } else { 4 });
     cov.bounds = json!({"in_process_cases": sp.total, "in_process_cases_completed": counted.load(Ordering::Relaxed), "generators": gen_desc, "family_inputs": sp.fam.len(), "prompt_lines": prompt_lines.load(Ordering::Relaxed), "source_files_through_the_binary": files.load(Ordering::Relaxed), "tier": tier.name()});
     cov.assumptions = common_assumptions();
-    cov.assumptions.push("'time and memory proportional to the input' is checked only as absolute ceilings on finite families (binary: 10 s / 400 MB below 100 KB of input, 30 s / 1.5 GB above; in-process 120 s) and, within each size family, as a scaling test: from one size to the next the cost per byte (CPU time of the handling thread / child process, so that the load on the machine does not matter) must not grow more than 5-fold once the time exceeds 1.5 s; no asymptotic claim".into());
+    cov.assumptions.push("'time and memory proportional to the input' is checked only as absolute ceilings on finite families (binary: 10 s / 400 MB below 100 KB of input, 30 s / 1.5 GB above; in-process 120 s) and, within each size family, as a scaling test: from one size to the next the cost per byte (CPU time of the handling thread / child process, so that the load on the machine does not matter) must not grow more than 3-fold once the time exceeds 1 s (on the unchanged tree the largest growth is 1.2, apart from the recorded finding); no asymptotic claim".into());
     cov.assumptions.push("a watchdog expiry of the binary counts only if the replica run loop (real Interpreter, 20 000 steps) shows that the program itself halts".into());
     cov.cli_runs = CLI_RUNS.load(Ordering::Relaxed);
     cov.distinct_nontrivial = sp.total as u64;
